@@ -168,7 +168,7 @@ func (p *program) declareFunction(lo, hi int) error {
 		case in.ResultID != 0:
 			p.unsupID[in.ResultID] = OpcodeName(in.Op)
 		default:
-			if _, ok := opTable[in.Op]; !ok {
+			if _, ok := lookupOp(in.Op); !ok {
 				p.unknownOps = true
 			}
 		}
@@ -217,7 +217,8 @@ func (p *program) decodeFunction(lo, hi int) error {
 			if !errors.As(err, &u) {
 				return err
 			}
-			d.emit(dinst{op: xUnsupported, s: OpcodeName(in.Op) + ": " + u.What})
+			p.msgs = append(p.msgs, OpcodeName(in.Op)+": "+u.What)
+			d.emit(dinst{op: xUnsupported, a: int32(len(p.msgs) - 1)})
 			if in.ResultID != 0 {
 				if _, ok := p.unsupID[in.ResultID]; !ok {
 					p.unsupID[in.ResultID] = u.What
@@ -316,7 +317,7 @@ func (d *fdec) inst(in *Inst) (err error) {
 	if in.ResultID != 0 {
 		dst = p.slot[in.ResultID]
 	}
-	name := OpcodeName(in.Op)
+	name := opName(in.Op)
 	// same-shape helpers
 	svOf := func(t *typ, k kind, what string) {
 		if !t.isSV(k) {
@@ -514,7 +515,8 @@ func (d *fdec) inst(in *Inst) (err error) {
 		if buffer {
 			op = xACB
 		}
-		d.emit(dinst{op: op, dst: dst, a: bs, ac: steps})
+		p.acs = append(p.acs, steps)
+		d.emit(dinst{op: op, dst: dst, a: bs, c: int32(len(p.acs) - 1)})
 	case OpArrayLength:
 		need(2)
 		rt := d.resType(in)
@@ -1120,6 +1122,11 @@ func (d *fdec) walkLiteral(in *Inst, t *typ, idx []uint32) (int, *typ) {
 	}
 	return off, t
 }
+
+// opName formats lazily (decoding must not pay for a string per instruction).
+type opName uint16
+
+func (o opName) String() string { return OpcodeName(uint16(o)) }
 
 // logicallyEqual implements the OpCopyLogical matching rule: same structure ignoring decorations.
 func logicallyEqual(a, b *typ) bool {
